@@ -49,7 +49,7 @@ impl Prop for C19 {
         "fault_enumeration"
     }
     fn rule(&self) -> String {
-        "cases = a generated conversation (C03-style: writer programs with explicit finishes and drops, prepared statements, QUIT- or EOF-terminated, generated read/write chunking) run fault-free to obtain its operation trace (N transport operations, B inbound bytes), then re-run with EVERY fault point: end-of-stream after k bytes for k = 0..B; a one-off error at operation k and a persistent error from operation k (each with io::ErrorKind ConnectionReset, UnexpectedEof and one of Other / BrokenPipe / TimedOut), write() -> Ok(0) at operation k for k = 0..N-1, and a read interrupted with ErrorKind::Interrupted at every read operation (which the library may either report or retry transparently, but the callback log must stay a prefix of the fault-free log); plus a tagged shim error at every callback index; enumerated conversations whose response contains a packet of 2^24-1 bytes or more (written explicitly and from a destructor), and a multi-packet *request* cut at, around and inside every fragment boundary; one generated conversation in twelve is instead run over TLS (rustls client in the transport) and ended at TLS-level points: a clean close (close_notify + end of stream) after the first m messages for every m (m = 0: TLS session established but no handshake response => Err and no callback; m >= 1 => Ok), and an abrupt end of stream at 10 sampled positions before the encrypted handshake response is complete (=> Err, no callback), and four malformed encrypted handshake responses (truncated; unterminated long UTF-8 user name => Err, no callback, no panic). Oracle: EOF => Ok iff k is a command boundary at or after the end of the handshake exchange (or QUIT was already consumed), else Err; transport fault => Err (never Ok, never a panic), the callback log is a prefix of the fault-free log and no callback starts after the fault; shim error => returned unchanged, no later callback. evaluations counts conversations; faulted_runs counts the enumerated re-runs. Conversations whose fault-free run already takes tens of thousands of transport operations (a 70 KB message through a transport that takes one byte per write) have their fault points sampled with a stride so that a case stays within ~5e7 operations (class fault-points-sampled); all others enumerate every point. A write or flush that fails once with ErrorKind::Interrupted may be reported or retried (std's write_all retries it): then the conversation must be exactly the fault-free one; it must never make run_on spin. Non-trivial = the conversation has >= 3 commands and >= 1 resultset program.".into()
+        "cases = a generated conversation (C03-style: writer programs with explicit finishes and drops, prepared statements, QUIT- or EOF-terminated, generated read/write chunking) run fault-free to obtain its operation trace (N transport operations, B inbound bytes), then re-run with EVERY fault point: end-of-stream after k bytes for k = 0..B; a one-off error at operation k and a persistent error from operation k (each with io::ErrorKind ConnectionReset, UnexpectedEof and one of Other / BrokenPipe / TimedOut), write() -> Ok(0) at operation k for k = 0..N-1, and a read interrupted with ErrorKind::Interrupted at every read operation (which the library may either report or retry transparently, but the callback log must stay a prefix of the fault-free log); plus a tagged shim error at every callback index; enumerated conversations whose response contains a packet of 2^24-1 bytes or more (written explicitly and from a destructor), and a multi-packet *request* cut at, around and inside every fragment boundary; one generated conversation in twelve is instead run over TLS (rustls client in the transport) and ended at TLS-level points: a clean close (close_notify + end of stream) after the first m messages for every m (m = 0: TLS session established but no handshake response => Err and no callback; m >= 1 => Ok), and an abrupt end of stream at 10 sampled positions before the encrypted handshake response is complete (=> Err, no callback), and four malformed encrypted handshake responses (truncated; unterminated long UTF-8 user name => Err, no callback, no panic). Oracle: EOF => Ok iff k is a command boundary at or after the end of the handshake exchange (or QUIT was already consumed), else Err; transport fault => Err (never Ok, never a panic), the callback log is a prefix of the fault-free log and no callback starts after the fault; shim error => returned unchanged, no later callback. evaluations counts conversations; faulted_runs counts the enumerated re-runs. Conversations whose fault-free run already takes tens of thousands of transport operations (a 70 KB message through a transport that takes one byte per write), or thousands of operations on tens of megabytes, have their fault points sampled with a stride so that a case stays within ~5e7 operations (class fault-points-sampled); all others enumerate every point. A write or flush that fails once with ErrorKind::Interrupted may be reported or retried (std's write_all retries it): then the conversation must be exactly the fault-free one; it must never make run_on spin. Non-trivial = the conversation has >= 3 commands and >= 1 resultset program.".into()
     }
     fn exhaustive_note(&self, _tier: Tier) -> Option<String> {
         Some("fault points of each generated conversation (all k for EOF / one-off / persistent / zero-write faults, all callback indexes for shim errors)".into())
@@ -193,8 +193,10 @@ impl Prop for C19 {
         // transport that accepts one byte per write), the points are sampled so that the work per
         // case stays bounded (~5e7 operations); ordinary cases enumerate all of them
         let budget = 50_000_000usize;
-        let op_stride = case.stride.max(1).max((8 * n_ops.saturating_mul(n_ops) + budget - 1) / budget);
-        let eof_stride = case.stride.max(1).max((b.saturating_mul(n_ops) + budget - 1) / budget);
+        // (what one run costs: its transport operations, and the bytes it moves)
+        let run_cost = n_ops + (base.out.len() + b) / 256;
+        let op_stride = case.stride.max(1).max((8 * n_ops.saturating_mul(run_cost) + budget - 1) / budget);
+        let eof_stride = case.stride.max(1).max((b.saturating_mul(run_cost) + budget - 1) / budget);
         if op_stride > case.stride.max(1) || eof_stride > case.stride.max(1) {
             ex.class("fault-points-sampled(long-conversation)");
         }
